@@ -183,13 +183,16 @@ proof fn lemma_hdr_phase_post(t0: Seq<IoEv>, t1: Seq<IoEv>, t: Seq<IoEv>, ps: in
         t[t1.len() as int] is Seek, t[t1.len() as int + 1] == hw, hdr_event(hw, ps, m),
         n_after >= 1 ==> (t[t1.len() as int + 2] == IoEv::Flush || t[t1.len() as int + 2] == IoEv::FlushFailed),
         n_after >= 2 ==> t[t1.len() as int + 2] == IoEv::Flush && (t[t1.len() as int + 3] == IoEv::Sync || t[t1.len() as int + 3] == IoEv::SyncFailed),
+        w3_all_pages_written(t0, t1, ps, pages),
     ensures
+        w3_all_pages_written(t0, t, ps, pages),
         is_prefix(t0, t), w1_data_writes(t0, t, ps, pages), w2_header_content(t0, t, ps, m), w2_header_is_last_write(t0, t, ps),
         w3_data_durable_before_header(t0, t, ps), hdr_written(t0, t, ps),
         n_after == 2 && t.last() == IoEv::Sync ==> w3_header_durable(t0, t, ps),
 {
     reveal(data_phase); reveal(w1_data_writes); reveal(w2_header_content); reveal(w2_header_is_last_write);
     reveal(w3_data_durable_before_header); reveal(hdr_written); reveal(w3_header_durable);
+    lemma_all_written_mono(t0, t1, t, ps, pages);
     let h = t1.len() as int;
     assert forall|i: int| t0.len() <= i < t.len() implies data_write_ok(#[trigger] t[i], ps, pages) || is_hdr_write(t[i], ps) by {
         if i < t1.len() { assert(t[i] == t1[i]); }
